@@ -98,8 +98,11 @@ class OPPSerialCommunicator(BaseSerialCommunicator):
         self.platform.process_received_message(self.chain_serial, resp)
 
         # Now send get gen2 configuration message to find populated wing boards
+        # every card answers with 7 bytes; a CRC byte may have the value of EOM, so only the byte after the last
+        # card's response ends the message
+        resp_len = 7 * len(self.platform.gen2_addr_arr[self.chain_serial])
         self.send_get_gen2_cfg_cmd()
-        resp = await self.readuntil(b'\xff', 6)
+        resp = await self.readuntil(b'\xff', max(6, resp_len))
 
         # resp will contain the gen2 cfg responses.  That will end up creating all the
         # correct objects.
@@ -107,7 +110,7 @@ class OPPSerialCommunicator(BaseSerialCommunicator):
 
         # get the version of the firmware
         self.send_vers_cmd()
-        resp = await self.readuntil(b'\xff', 6)
+        resp = await self.readuntil(b'\xff', max(6, resp_len))
         self.platform.process_received_message(self.chain_serial, resp)
 
         # see if version of firmware is new enough
